@@ -739,3 +739,289 @@ def record_run(sc):
             lat_out.append([dict(E=q(e)) for e in lats[k].E])
     return dict(mode=sc["mode"], n=sc["n"], nsr=nsr, bs=bs, p=p, tb=tb, burn=sc.get("burn_in", 0),
                 ps=[dict(ty=pp[0], a=pp[1], b=pp[2]) for pp in sc["ps"]], lat=lat_out, chain=chain, events=events)
+
+
+PRS = [Fraction(0), Fraction(1, 2), Fraction(1), Fraction(1), Fraction(2)]
+LKS = [Fraction(1, 4), Fraction(1, 2), Fraction(1), Fraction(2), Fraction(3)]
+RUN_KINDS = [(0, 0, 4), (0, -1, 1), (0, 1, 2), (1, 0, 4), (1, 0, -1), (2, 1, 0), (2, -3, 0), (3, 0, 0)]
+
+
+def scripted_lattice(rnd, p_kind, tb, n_pts=None):
+    """lattice of one parameter with random prior / likelihood factors; at least one point inside the support"""
+    if tb:
+        Es = list(points_of(p_kind))
+    else:
+        Es = [Fraction(v) for v in (-1, 0, 1, 2, 3, 5)]
+    if n_pts:
+        Es = rnd.sample(Es, n_pts)
+    pts = []
+    for e in Es:
+        pr = rnd.choice(PRS)
+        if not tb and (e <= 0 or e >= 4):
+            pr = Fraction(0)                     # a bounded prior: support (0, 4)
+        lk = rnd.choice(LKS) if rnd.random() > 0.08 else Fraction(0)
+        pts.append(dict(E=q(e), pr=q(pr), lk=q(lk)))
+    inside = [j for j, pt in enumerate(pts) if pt["pr"][0] > 0 and pt["lk"][0] > 0]
+    if not inside:
+        j = rnd.randrange(len(pts)) if tb else [k for k, e in enumerate(Es) if 0 < e < 4][0]
+        pts[j]["pr"], pts[j]["lk"] = [1, 1], [1, 1]
+        inside = [j]
+    return pts, inside
+
+
+def scripted_run(rnd, ps, tb, n, nsr, bs, maxpar=1, sched=None, burn_in=0, props=None, us=None, lat=None, start=None):
+    p = len(ps)
+    if lat is None:
+        lat, start = [], []
+        for k in range(p):
+            pts, inside = scripted_lattice(rnd, ps[k], tb)
+            lat.append(pts)
+            start.append(rnd.choice(inside) + 1)
+    if props is None:
+        props = [[rnd.randint(1, len(lat[k])) for k in range(p)] for _ in range(n - 1)]
+    if us is None:
+        us = [[rnd.choice([0, 1, 8, 16, 24, 32, 40, 48, 56, 63] + list(range(64))), 64] for _ in range(n - 1)]
+    return dict(kind="run", mode="scripted", n=n, nsr=nsr, bs=bs, maxpar=maxpar, sched=sched, burn_in=burn_in, tb=tb,
+                ps=[list(x) for x in ps], lat=lat, start=start, props=props, us=us, p_ready=rnd.choice([0.2, 0.5, 0.9]),
+                p_run=rnd.choice([0.0, 0.5, 1.0]))
+
+
+def run_scenarios(ctx):
+    rnd = random.Random(ctx.seed * 13 + 5)
+    out = []
+    # (1) exhaustive: one two-sided parameter, 3 lattice points (one outside the support), n = 4:
+    #     every proposal sequence x every low/high pattern of the uniform draws
+    lat = [[dict(E=[1, 2], pr=[1, 1], lk=[1, 1]), dict(E=[2, 1], pr=[0, 1], lk=[1, 1]), dict(E=[3, 1], pr=[1, 2], lk=[3, 1])]]
+    for props in itertools.product([1, 2, 3], repeat=3):
+        for us in itertools.product([2, 44], repeat=3):
+            out.append(scripted_run(rnd, [(0, 0, 4)], True, 4, 2, 1, lat=lat, start=[1], props=[[i] for i in props],
+                                    us=[[u, 64] for u in us]))
+    n_ex = len(out)
+    # (2) random scripted runs: every kind, 1-2 parameters, with / without transform, batch splits, parallel batches
+    n_scr = 150 if ctx.quick else 1500
+    for j in range(n_scr):
+        p = rnd.choice([1, 1, 2])
+        ps = [rnd.choice(RUN_KINDS) for _ in range(p)]
+        tb = rnd.random() < 0.8
+        nsr = rnd.choice([2, 4, 6])
+        bs = rnd.choice([b for b in (1, 2, 3, 6) if nsr % b == 0 and nsr // b <= 4])
+        maxpar = rnd.choice([1, 2, 3])
+        n = rnd.randint(3, 9)
+        out.append(scripted_run(rnd, ps, tb, n, nsr, bs, maxpar=maxpar, sched=(rnd.randint(0, 10 ** 6) if (maxpar > 1 or j % 3 == 0) else None),
+                                burn_in=rnd.choice([0, 0, 1, 2]) if n > 3 else 0))
+    # (3) seeded runs: elfi's generator, noisy simulator, the real Gaussian synthetic likelihood
+    n_seed = 40 if ctx.quick else 400
+    for j in range(n_seed):
+        p = rnd.choice([1, 1, 2])
+        tb = rnd.random() < 0.4
+        nsr = rnd.choice([4, 6, 8])
+        bs = rnd.choice([b for b in (1, 2, 4, nsr) if nsr % b == 0 and nsr // b <= 4])
+        maxpar = rnd.choice([1, 2, 3])
+        ps = [rnd.choice([(0, -2, 8), (1, 0, 8), (2, -2, 0), (3, 0, 0)]) if tb else (3, 0, 0) for _ in range(p)]
+        out.append(dict(kind="run", mode="seeded", n=rnd.randint(4, 14), nsr=nsr, bs=bs, maxpar=maxpar,
+                        sched=(rnd.randint(0, 10 ** 6) if (maxpar > 1 or j % 3 == 0) else None), tb=tb, ps=[list(x) for x in ps],
+                        support=[[0, 4]] * p, start=[rnd.choice([0.5, 2.0, 3.5]) for _ in range(p)], seed=rnd.randint(0, 10 ** 6),
+                        sigma=rnd.choice([1.0, 4.0, 9.0]), obs=rnd.choice([1, 2, 3]) * p, noise_seed=rnd.randint(0, 10 ** 6),
+                        burn_in=rnd.choice([0, 0, 2]), p_ready=rnd.choice([0.2, 0.5, 0.9]), p_run=rnd.choice([0.0, 0.5, 1.0])))
+    return out, n_ex
+
+
+# ================================================================== pinned scenarios (defects of DESIGN section 6)
+def pinned_scenarios():
+    """One scenario per defect found with this check; they run on every invocation."""
+    out = []
+    # F16: Jacobian evaluated at the untransformed point; F17: sign for an upper bound only
+    out.append(dict(kind="mh", pin="F16", ps=[[0, 0, 4]], items=[dict(ev="mh", pE=[[1, 3]], cE=[[2, 1]], pq=[1, 1], cq=[1, 1], cz=False, tb=True)]))
+    out.append(dict(kind="mh", pin="F17", ps=[[1, 0, 4]], items=[dict(ev="jac", E=[[2, 1]]),
+                                                                  dict(ev="mh", pE=[[1, 1]], cE=[[2, 1]], pq=[1, 1], cq=[1, 1], cz=False, tb=True)]))
+    # F18: BSL.sample cannot run under numpy 2
+    lat = [[dict(E=[1, 2], pr=[1, 1], lk=[1, 1]), dict(E=[2, 1], pr=[0, 1], lk=[1, 1]), dict(E=[3, 1], pr=[1, 2], lk=[3, 1])]]
+    out.append(dict(kind="run", pin="F18", mode="scripted", n=4, nsr=2, bs=1, maxpar=1, sched=None, burn_in=0, tb=True, ps=[[0, 0, 4]],
+                    lat=lat, start=[1], props=[[3], [2], [1]], us=[[2, 64], [2, 64], [44, 64]], p_ready=0.5, p_run=0.5))
+    # F21: unbiased estimator, d = 2 (constant offset) and d = 1 (-inf); F32: outside the support; F31: d = 1 crashes
+    c2 = dict(x=[[0, 0], [2, 0], [0, 2], [2, 2], [1, 1], [1, 1]], y=[1, 1], s=1, d=2)
+    out.append(dict(kind="lik", pin="F21", c=c2, items=[dict(fn="go", W=[], ws=1, shr=False, gam=[1, 1], g=[])]))
+    c1 = dict(x=[[0], [1], [1], [2], [1]], y=[1], s=1, d=1)
+    out.append(dict(kind="lik", pin="F21", c=c1, items=[dict(fn="go", W=[], ws=1, shr=False, gam=[1, 1], g=[])]))
+    out.append(dict(kind="lik", pin="F32", c=dict(c2, y=[9, 9]), items=[dict(fn="go", W=[], ws=1, shr=False, gam=[1, 1], g=[])]))
+    out.append(dict(kind="lik", pin="F31", c=dict(x=[[0], [1], [1], [2]], y=[1], s=1, d=1),
+                    items=[dict(fn="var", W=[], ws=1, shr=False, gam=[1, 1], g=[1]), dict(fn="std", W=[[2]], ws=1, shr=False, gam=[1, 1], g=[])]))
+    return out
+
+
+# ================================================================== check
+def classify(sc, tr, v):
+    """Known-finding classifiers: each matches exactly the failing input class of one finding."""
+    return None
+
+
+def check_scenarios(ctx, scs):
+    by = {"mh": [], "lik": [], "run": []}
+    for sc in scs:
+        by[sc["kind"]].append(sc)
+    specs = {"mh": ("BslMh_Trace", record_mh, 12), "lik": ("SynLik_Trace", record_lik, 250), "run": ("BslRound_Trace", record_run, 60)}
+    all_traces = {}
+    for kind in ("mh", "lik", "run"):
+        if not by[kind]:
+            continue
+        mod, rec, chunk = specs[kind]
+        traces = [rec(sc) for sc in by[kind]]
+        all_traces[kind] = traces
+        verdicts = ctx.validate(mod, traces, chunk=chunk, name=kind)
+        for sc, tr, v in zip(by[kind], traces, verdicts):
+            evs = tr["events"]
+            ctx.trace_events += len(evs)
+            if kind == "mh":
+                for e in evs:
+                    ctx.case(("mh", tuple(map(tuple, sc["ps"])), e["ev"], str(e["E"]), str(e["pE"]), str(e["cE"]), str(e["pq"]), str(e["cq"]),
+                              e["cz"], e["tb"], str(e["x"])), nontrivial=(e["ev"] != "mh" or (e["tb"] and e["pE"] != e["cE"])))
+            elif kind == "lik":
+                for e in evs:
+                    ctx.case(("lik", str(sc["c"]), e["fn"], str(e["W"]), e["ws"], e["shr"], str(e["gam"]), str(e["g"])),
+                             nontrivial=(e["fn"] != "std" or bool(e["W"]) or e["shr"] or sc["c"]["d"] > 1))
+            else:
+                n_rej = sum(1 for e in evs if e["ev"] == "q" and not e["fin"])
+                chain = tr["chain"]
+                moved = sum(1 for a, b in zip(chain, chain[1:]) if a != b)
+                ctx.case(("run", ctx_digest(sc)), nontrivial=(n_rej > 0 and moved > 0))
+            if v["verdict"] != "ok":
+                at = evs[min(max(v["l"] - 2, 0), len(evs) - 1)]
+                ctx.fail(v["verdict"], sc, detail=dict(at_event=v["l"] - 1, event=at, pinned=sc.get("pin")),
+                         finding=classify(sc, tr, v))
+            elif v["drift"]:
+                ctx.drifted(v["drift"], sc)
+    return all_traces
+
+
+def ctx_digest(sc):
+    from harness.core import digest
+    return digest(sc)
+
+
+MH_CFG = """SPECIFICATION Spec
+CONSTANTS
+  Dim = %d
+  UpperNeg = %s
+  UseJac = %s
+  Params <- MCParams
+  Points <- MCPoints
+  IntPoints <- MCIntPoints
+  Posts <- MCPosts
+%s
+CHECK_DEADLOCK FALSE
+"""
+MH_INVS = ["Inverse", "JacobianIsDerivative", "Reciprocal", "DetailedBalance", "RatioIsStated"]
+
+SL_CFG = """SPECIFICATION Spec
+CONSTANTS
+  N = %d
+  D = %d
+  Vals = {%s}
+  YVals = {%s}
+  Scales = {%s}
+  LogN1Coef = %d
+  CheckPD = %s
+  Ws <- MCWs
+%s
+CHECK_DEADLOCK FALSE
+"""
+SL_INVS = ["DetLemma", "ScatterIsScaledCov", "UnbiasedSupport", "SupportIffQuad", "Equivariance", "ZeroGamma", "VarAdjFlatter"]
+
+BR_CFG = """SPECIFICATION Spec
+CONSTANTS
+  N = %d
+  NB = %d
+  MaxPar = %d
+  Gate = %s
+  TestFirst = %s
+%s
+CHECK_DEADLOCK FALSE
+"""
+BR_INVS = ["NoSimForRejected", "RoundsAligned", "ChainStep", "RejectedKeepState", "ChainLength", "OneEvalPerPosition",
+           "CurrentParamsDefined", "NeverWaitsOnNothing"]
+
+
+def invs(names, prop=None):
+    return "\n".join("INVARIANT %s" % n for n in names) + ("\nPROPERTY %s" % prop if prop else "")
+
+
+def tf(b):
+    return "TRUE" if b else "FALSE"
+
+
+def design_runs(ctx):
+    """(module, cfg name, cfg text, expect_ok, expect_actions)"""
+    runs = []
+    mh_act = ["Propose", "Accept", "Reject"]
+    runs.append(("MC_BslMh", "mh_dim1", MH_CFG % (1, "TRUE", "TRUE", invs(MH_INVS)), True, mh_act))
+    runs.append(("MC_BslMh", "mh_neg_uppersign", MH_CFG % (1, "FALSE", "TRUE", invs(["JacobianIsDerivative"])), False, None))
+    runs.append(("MC_BslMh", "mh_neg_nojacobian", MH_CFG % (1, "TRUE", "FALSE", invs(["DetailedBalance"])), False, None))
+    sl = lambda n, d, vals, ys, sc, coef, pd, iv: SL_CFG % (n, d, vals, ys, sc, coef, tf(pd), invs(iv))
+    runs.append(("MC_SynLik", "sl_d1", sl(5, 1, "0, 1, 3", "0, 1, 2, 5", "1, 2", 0, True, SL_INVS), True, ["Whiten"]))
+    runs.append(("MC_SynLik", "sl_d2", sl(5, 2, "0, 1", "0, 3", "1", 0, True, SL_INVS), True, ["Whiten"]))
+    runs.append(("MC_SynLik", "sl_neg_f21", sl(5, 2, "0, 1", "0, 3", "1", 1, True, ["ScatterIsScaledCov"]), False, None))
+    runs.append(("MC_SynLik", "sl_neg_f32", sl(5, 1, "0, 1, 3", "0, 5", "1", 0, False, ["UnbiasedSupport"]), False, None))
+    runs.append(("MC_SynLik", "sl_neg_invariant", sl(4, 1, "0, 1", "0, 3", "1", 0, True, ["WhiteningInvariant"]), False, None))
+    br_act = ["Submit", "GoWait", "Consume", "Finish"]
+    runs.append(("BslRound", "br_n4", BR_CFG % (4, 2, 2, "TRUE", "TRUE", invs(BR_INVS, "Terminates")), True, br_act))
+    runs.append(("BslRound", "br_n5", BR_CFG % (5, 1, 3, "TRUE", "TRUE", invs(BR_INVS, "Terminates")), True, br_act))
+    runs.append(("BslRound", "br_neg_nogate", BR_CFG % (4, 2, 2, "FALSE", "TRUE", invs(["RoundsAligned"])), False, None))
+    runs.append(("BslRound", "br_neg_simfirst", BR_CFG % (4, 2, 2, "TRUE", "FALSE", invs(["NoSimForRejected"])), False, None))
+    if not ctx.quick:
+        runs.append(("MC_BslMh", "mh_dim2", MH_CFG % (2, "TRUE", "TRUE", invs(MH_INVS)), True, mh_act))
+        runs.append(("MC_SynLik", "sl_d1_big", sl(6, 1, "0, 1, 2, 4", "0, 1, 3, 6", "1, 2, 4", 0, True, SL_INVS), True, ["Whiten"]))
+        runs.append(("MC_SynLik", "sl_d2_big", sl(5, 2, "0, 1, 2", "0, 3", "1", 0, True, SL_INVS), True, ["Whiten"]))
+        runs.append(("MC_SynLik", "sl_d2_n6", sl(6, 2, "0, 1", "-1, 2", "1, 2", 0, True, SL_INVS), True, ["Whiten"]))
+        runs.append(("BslRound", "br_n6", BR_CFG % (6, 3, 3, "TRUE", "TRUE", invs(BR_INVS, "Terminates")), True, br_act))
+        runs.append(("BslRound", "br_n7", BR_CFG % (7, 2, 4, "TRUE", "TRUE", invs(BR_INVS, "Terminates")), True, br_act))
+    return runs
+
+
+def run(ctx):
+    import concurrent.futures
+    ctx.rule = ("(c),(d): every (bound kind, lattice point) for the static helpers and every ordered pair of lattice points x pair of posterior "
+                "values for _get_mh_ratio per bound kind (13 kinds over the 4 types), random vectors of 2-3 parameters, random points off the "
+                "lattice for the round trip; (a),(b): every multiset of 4-5 small integers x observed value in one dimension plus random "
+                "1-D / 2-D integer and dyadic data, each with every on-lattice call (plain, 5-10 whitening matrices, 6 Warton penalties, "
+                "unbiased, 7 mean / variance gamma vectors); (d),(e): every proposal sequence x low/high uniform pattern on a 3-point lattice "
+                "with n = 4, plus random scripted and seeded BSL.sample runs (1-2 parameters, batch splits, scheduled client with up to 3 "
+                "parallel batches).  Non-trivial = transform used and the two points differ (ratio) / not the plain 1-D standard case "
+                "(likelihood) / a run with at least one proposal rejected outside the support and at least one move.")
+    ctx.clauses_decided = [
+        "a: standard synthetic log-likelihood = log N(ssy; mean, S) on the {2,3,5,7}-smooth lattice, d <= 2, with integer / dyadic whitening and Warton shrinkage (the code's 1e-5 diagonal guard inside an explicit tolerance)",
+        "b: unbiased (Ghurye-Olkin) incl. support, mean- and variance-adjusted variants (integer gamma) on the same lattice",
+        "c: back-transform inverts transform (exact on the lattice, 1e-9 on random points)",
+        "d: MH ratio = posterior ratio x Jacobian ratio at the transformed points (rational), accept iff u < min(1, ratio) in scripted runs",
+        "e: no simulation for proposals outside the prior support; chain bookkeeping (length, copy of the previous state, burn-in, n_sim)"]
+    ctx.clauses_not_decided = [
+        "a: general covariance matrices off the lattice (no exact log det), d >= 3, shrinkage 'glasso', the semi-parametric likelihood",
+        "d: acceptance decisions of seeded runs (only chain[n] in {proposal, previous} is decided there)",
+        "gamma slice samplers of the misspecified variants (only the likelihood value for a given gamma is decided)"]
+    ctx.trusted_base += ["numpy float arithmetic on integer / dyadic data (exactness of the inputs)",
+                         "harness operations (prior / simulator / likelihood callables, scripted random_state object) log faithfully"]
+    ctx.assumptions += ["sampler.random_state may be replaced by a duck-typed object with multivariate_normal / uniform (scripted runs)"]
+    # ---- O1
+    runs = design_runs(ctx)
+
+    def one(r):
+        mod, name, text, ok, acts = r
+        return ctx.tlc(mod, "MC_C20_%s" % name, cfg_text=text, expect_ok=ok, expect_actions=acts, label=name, workers=2,
+                       timeout=1500 if ctx.quick else 3000)
+    with concurrent.futures.ThreadPoolExecutor(max_workers=4) as ex:
+        for f in [ex.submit(one, r) for r in runs]:
+            f.result()
+    # ---- O3
+    scs = pinned_scenarios() + mh_scenarios(ctx) + lik_scenarios(ctx)
+    rs, n_ex = run_scenarios(ctx)
+    scs += rs
+    traces = check_scenarios(ctx, scs)
+    ctx.exhaustive = True
+    ctx.notes.append("%d mh traces, %d likelihood data sets, %d runs (%d exhaustive)" %
+                     (len(traces.get("mh", [])), len(traces.get("lik", [])), len(traces.get("run", [])), n_ex))
+    for kind in ("mh", "lik", "run"):
+        for tr in traces.get(kind, [])[5:7]:
+            ctx.sample({k: (v[:10] if isinstance(v, list) else v) for k, v in tr.items()})
+
+
+def replay(ctx, scenario):
+    check_scenarios(ctx, [scenario])
